@@ -41,6 +41,8 @@ def configs(tier):
 def run(rep, repo, tier):
     for k, v in RULES.items():
         rep.rule(k, v)
+    from ..defined import check_defined
+    check_defined(rep, repo, 'C04.R2', [repo.method('Solver', '__init__'), repo.method('Solver', 'solve'), repo.method('Solver', 'get_results_short'), repo.method('Solver', 'get_results_long')], 'solver path')
     rep.assumptions += ['A3 PuLP: prob.objective = e / prob += e replace the objective; solve() reads prob.sense', 'A6 CBC exact',
                         'NOT decided: a rounded varValue (e.g. 2.9999) making the freeze cut the optimum']
     for crit in configs(tier):
